@@ -32,9 +32,21 @@ fn own_instance() -> InstanceInformation {
     InstanceInformation::new("me".into()).with_ip_address("10.9.9.9".parse().unwrap()).with_port(4242)
 }
 
-/// store kinds: 0 empty, 1 as ServiceDiscovery::new initialises it, 2 the same plus a cached peer
+/// store kinds: 0 empty, 1 as ServiceDiscovery::new initialises it, 2 the same plus a cached peer,
+/// 3 kind 1 plus odd-shaped authoritative records (binary labels, a dot inside a label, SRV at one- and
+/// two-label owners, DNS-SD meta-query PTR, a record at the root), 4 kind 1 plus 40 hosts x (A, SRV, PTR)
 pub fn make_store(kind: u8) -> Store {
     let mut s = ResourceRecordManager::new();
+    if kind == 3 || kind == 4 {
+        let (w, _) = super::c13::extra_world(if kind == 3 { "odd" } else { "scale" }, 40);
+        for (i, r) in w.lib.iter().enumerate() {
+            // names built with new_unchecked beyond the wire limits cannot be serialised by
+            // contract; the store states quantified over hold representable names only
+            if w.menu[i].name.is_wire_valid() {
+                s.add_authoritative_resource(r.clone());
+            }
+        }
+    }
     if kind >= 1 {
         s.add_authoritative_resource(ResourceRecord::new(service_name(), CLASS::IN, 120, RData::PTR(PTR(own_full()))));
         for r in own_instance().into_records(&own_full(), 120).unwrap() {
@@ -592,6 +604,44 @@ pub fn run(ctx: &Ctx) {
             }
         }
     });
+    // well-known and odd question names against stores holding odd-shaped and many records
+    {
+        let mut wk: Vec<Vec<u8>> = Vec::new();
+        for kind in ["odd", "scale"] {
+            let (_, qs) = super::c13::extra_world(kind, 40);
+            for q in qs {
+                for flags in [0u16, 0x8400] {
+                    let mut p = RefPacket { id: 0, flags, ..Default::default() };
+                    p.questions.push(RefQ { name: q.name.clone(), qtype: q.qtype, qclass: q.qclass, unicast: q.unicast });
+                    if q.name.is_wire_valid() {
+                        wk.push(p.encode(0));
+                    }
+                }
+            }
+        }
+        for (_, d) in &hostile {
+            wk.push(d.clone());
+        }
+        wk.push(benign_query());
+        wk.push(benign_response());
+        let wchunks: Vec<&[Vec<u8>]> = wk.chunks(16).collect();
+        par_shards(ctx, &wchunks, |ds, t: &mut Tally| {
+            for d in ds.iter() {
+                for store_kind in 0..5u8 {
+                    t.evals += 1;
+                    t.transitions += 9;
+                    t.nontrivial += 1;
+                    let f = check_datagram(d, store_kind, false);
+                    t.outcome(if f.is_empty() { "survived" } else { "wedged" });
+                    if !f.is_empty() {
+                        ctx.violations(f);
+                    }
+                }
+            }
+        });
+        ctx.space("queries and responses for every name of the odd and 40-host worlds of C13 (incl. the DNS-SD meta-query name, the root, parents of registered names) x 5 types x 2 classes, plus the hostile-name families, x 5 store kinds (incl. odd-shaped authoritative records: binary labels, a dot inside a label, SRV at 1- and 2-label owners, a record at the root; and 120 records)", wk.len() as u64 * 5, "complete");
+        ctx.add_states(wk.len() as u64 * 5);
+    }
     ctx.add_states(data.len() as u64 * 6);
     ctx.space(&format!("short buffers: every string of length <= {} over {{00,80,ff}}", l), n_short as u64, "complete");
     ctx.space("hostile-name and size families", hostile.len() as u64, "complete");
